@@ -29,7 +29,7 @@ type St int
 
 func (s St) String() string { return "St" + strconv.Itoa(int(s)) }
 
-var names = []string{"w", "my flow", "a b  c", "order-flow", "x_y", "Über fluß", "日本 語", "-", " ", "a-1", "run-state-change", "delete", "", "W-1 of 2"}
+var names = []string{strings.Repeat("long name ", 24), strings.Repeat("n", 300), "w", "my flow", "a b  c", "order-flow", "x_y", "Über fluß", "日本 語", "-", " ", "a-1", "run-state-change", "delete", "", "W-1 of 2"}
 
 var statuses = []int{-2147483648, -2147483649, -9223372036854775808, -10, -1, 0, 1, 2, 7, 9, 10, 11, 99, 100, 2147483647, 2147483648, 4294967296 + 5, 9223372036854775807}
 
